@@ -26,6 +26,8 @@ type propDef struct {
 
 var registry = map[string]*propDef{}
 
+var bceFile string
+
 func register(p *propDef) { registry[p.ID] = p }
 
 var trustedBase = []string{
@@ -41,6 +43,7 @@ func main() {
 	tier := flag.String("tier", "quick", "quick|thorough")
 	dump := flag.String("dump", "", "debug: dump SSA of the named function")
 	replay := flag.String("replay", "", "replay file: re-evaluate the obligation it names")
+	bce := flag.String("bce", "", "thorough/C08: file with the compiler's -d=ssa/check_bce/debug=1 listing for cross-checking the obligation inventory")
 	flag.Parse()
 
 	seed := 0
@@ -52,6 +55,7 @@ func main() {
 	if *replay != "" {
 		os.Exit(doReplay(*repo, *verif, *replay, seed))
 	}
+	bceFile = *bce
 	t0 := time.Now()
 	w, err := Load(*repo)
 	if err != nil {
